@@ -586,6 +586,22 @@ def worker(case):
             # is shared by every call of this interpreter, like a caller re-using its options
             from fontTools.otlLib.optimize.gpos import COMPRESSION_LEVEL
             opts["ftConfig"] = {(COMPRESSION_LEVEL if k == COMPRESSION_LEVEL.name else k): v for k, v in opts["ftConfig"].items()}
+        # filter OBJECTS given through the `filters=` argument are option objects too: ONE list of instances is made per
+        # interpreter and handed to every call of the history (decoy compiles of another font included); only the reference
+        # run ("fresh" steps) gets brand-new, equal instances for every call
+        fspecs = opts.pop("filterObjs", None)
+
+        def make_filters():
+            from ufo2ft.filters import getFilterClass
+            fl = []
+            for sp in fspecs:
+                if sp == "...":
+                    fl.append(...)
+                else:
+                    fl.append(getFilterClass(sp["name"])(pre=bool(sp.get("pre")), **dict(sp.get("kwargs") or {})))
+            return fl
+
+        shared_filters = make_filters() if fspecs else None
         import dataclasses
         from ufo2ft._compilers.interpolatableOTFCompiler import InterpolatableOTFCompiler
         from ufo2ft._compilers.interpolatableTTFCompiler import InterpolatableTTFCompiler
@@ -603,9 +619,12 @@ def worker(case):
                 dfd = gen_font(rr)
                 dfd["lib"]["public.skipExportGlyphs"] = ["o"]
                 dfd["lib"].pop("com.github.googlei18n.ufo2ft.filters", None)
+                # ... with other vertical metrics than every generated source (what a filter derives from a font differs)
+                dfd["info"].update({"capHeight": 640, "xHeight": 430, "ascender": 760, "descender": -240})
                 df = _build_sources(case, case["lib"], [dfd])[0]
+                dkw = {"filters": shared_filters} if shared_filters is not None else {}
                 try:
-                    (ufo2ft.compileTTF if kind == "ttf" else ufo2ft.compileOTF)(df)
+                    (ufo2ft.compileTTF if kind == "ttf" else ufo2ft.compileOTF)(df, **dkw)
                 except Exception:
                     pass
                 continue
@@ -615,6 +634,8 @@ def worker(case):
             kw = {k: v for k, v in opts.items() if k in ok}
             if mode == "inplace":
                 kw["inplace"] = True
+            if fspecs:
+                kw["filters"] = make_filters() if mode == "fresh" else shared_filters
             fea = None
             if kind in ("ttf", "otf"):
                 fea = io.StringIO()
